@@ -24,13 +24,13 @@ type Finding struct {
 }
 
 type Stats struct {
-	Files, Bytes, Deliveries     int64
-	Frags, Zero, DataEOF         int64
-	Faces, Rows                  int64
-	Shapes                       map[string]struct{}
-	Sample                       any
-	NonTrivial                   bool
-	Digest                       string
+	Files, Bytes, Deliveries int64
+	Frags, Zero, DataEOF     int64
+	Faces, Rows              int64
+	Shapes                   map[string]struct{}
+	Sample                   any
+	NonTrivial               bool
+	Digest                   string
 }
 
 func (s *Stats) shape(k string) {
@@ -118,3 +118,4 @@ func recoverTo(kind string, f *[]Finding) {
 		*f = append(*f, Finding{kind + "|panic|" + cls, "panic: " + msg})
 	}
 }
+func bits(x float64) uint64 { return math.Float64bits(x) }
